@@ -101,6 +101,11 @@ ServerShapes ==
     relbvx   |-> <<WithBV(RelV1, <<[i |-> 1, v |-> "y"]>>)>>,    \* /{y}
     abshx    |-> <<[AbsV1 EXCEPT !.host = <<[v |-> "x", d |-> "api"], L("example"), L("com")>>]>>,    \* https://{x}.example.com/v1
     abspx    |-> <<[AbsV1 EXCEPT !.port = <<[v |-> "y", d |-> "8443"]>>]>>,
+    \* server variables with an enum (the declared set of values): a port variable whose default is the default port
+    \* of the scheme, one whose default is another port, a host label
+    abspe    |-> <<[AbsV1 EXCEPT !.port = <<[v |-> "port", d |-> "443", enum |-> <<"443", "8443">>]>>]>>,   \* https://api.example.com:{port}/v1
+    abspe2   |-> <<[ApiHttp EXCEPT !.port = <<[v |-> "port", d |-> "8080", enum |-> <<"8080", "80">>]>>]>>,  \* http://api.example.com:{port}/v1
+    abshe    |-> <<[AbsV1 EXCEPT !.host = <<[v |-> "sub", d |-> "api", enum |-> <<"api", "www">>], L("example"), L("com")>>]>>,
     absschv  |-> <<AbsSchV>>,                                    \* {scheme}://api.example.com/v1
     schvdup  |-> <<ApiHttp, AbsSchV>>]                           \* http://api.example.com/v1, {scheme}://api.example.com/v1 (covers the first)                             \* https://api.example.com:{y}/v1
 (* path-level servers: the document declares https://api.example.com/v1, the path item   *)
@@ -121,7 +126,7 @@ SrvRank(k) == CASE k = "none" -> 1 [] k = "rel" -> 2 [] k = "relslash" -> 3 [] k
                 [] k = "relpfx" -> 10 [] k = "abspfx" -> 11 [] k = "schemes" -> 12 [] k = "ports" -> 13 [] k = "dup" -> 14
                 [] k = "absbv" -> 15 [] k = "relbv" -> 16 [] k = "absbvx" -> 17 [] k = "relbvx" -> 18 [] k = "abshx" -> 19
                 [] k = "abspx" -> 20 [] k = "psschemes" -> 21 [] k = "absschv" -> 22 [] k = "schvdup" -> 23
-                [] k = "psrel" -> 24 [] k = "psvar" -> 25
+                [] k = "psrel" -> 24 [] k = "psvar" -> 25 [] k = "abspe" -> 26 [] k = "abspe2" -> 27 [] k = "abshe" -> 28
 
 WithOwn(t, svs) == [segs |-> t.segs, ops |-> t.ops, servers |-> svs]
 Doc(tm, sk) ==
@@ -268,7 +273,19 @@ Requests(doc) ==
                                 \cup UNION {{[m |-> t.ops[1].m, u |-> WithTail(Under(S[1], BaseFill(t)), "?a=1#top")]} : t \in T} :
                              /\ x.u.abs /\ x.u.scheme \in {"http", "https"}
                              /\ Len(x.u.path) > 0 /\ (x.u.path[1] # "" \/ Len(x.u.path) = 1)}}     \* (the path alone must parse as a path)
-   IN {r \in main \cup odd \cup srv \cup tails \cup encv \cup altv \cup schv \cup sform : WellFormed(r)}
+       \* a port variable / a host variable with an enum at each of its declared values, a port (9) and a label (zzz)
+       \* outside the enum, and no port at all
+       enumP(sv, t) == IF sv.abs /\ Len(sv.port) = 1 /\ EnumOf(sv.port[1]) # <<>>
+                       THEN {[m |-> t.ops[1].m, u |-> [Under(sv, BaseFill(t)) EXCEPT !.port = pt]] :
+                               pt \in {<<x>> : x \in DeclaredVals(sv.port[1]) \cup {"9"}} \cup {<<>>}}
+                       ELSE {}
+       enumH(sv, t) == IF sv.abs
+                       THEN UNION {{[m |-> t.ops[1].m, u |-> [Under(sv, BaseFill(t)) EXCEPT !.host[i] = x]] :
+                                      x \in DeclaredVals(sv.host[i]) \cup {"zzz"}} :
+                                   i \in {k \in 1..Len(sv.host) : EnumOf(sv.host[k]) # <<>>}}
+                       ELSE {}
+       enumv == UNION {UNION {enumP(sv, t) \cup enumH(sv, t) : sv \in AllServers(doc)} : t \in T}
+   IN {r \in main \cup odd \cup srv \cup tails \cup encv \cup altv \cup schv \cup sform \cup enumv : WellFormed(r)}
 
 (* The order the requests of a document are run in (one router instance per chunk of     *)
 (* this sequence): first the main URLs, each with GET and then POST back to back -- so    *)
